@@ -19,7 +19,7 @@ RULE = ("case = (generated program, optimisation configuration); configurations:
         "Non-trivial = configuration differs from -Q0 and the -Ffm text of the two compilations differs (the optimiser rewrote something); "
         "distinct = (program hash, canonical configuration).")
 ASSUMPTIONS = ["-Q9 (unbounded inlining) on a program with a self-recursive function called from another function does not terminate: known finding "
-               "C02-K8, those (program, -Q9*) pairs are excluded and counted", "cc-fnonstd is documented as not IEEE compliant; generated programs print no floating values"]
+               "C02-K8, those (program, -Q9* or -Qinline-limit > 30) pairs are excluded and counted", "cc-fnonstd is documented as not IEEE compliant; generated programs print no floating values"]
 
 
 def fixed_configs():
@@ -35,7 +35,13 @@ KILLP_KNOWN = any(f["id"] == "C02-K20-killp" for f in _F.known("C02"))
 
 
 def unbounded_inline(cfg):
-    return cfg and cfg[0] == "-Q9" and "-Qno-inline" not in cfg and not any(c.startswith("-Qinline-limit") for c in cfg)
+    """-Q9 (limit -1) or an explicit limit beyond that of every level (-Q8 = 30): the inliner's growth on recursive functions is not bounded in practice"""
+    if not cfg or "-Qno-inline" in cfg:
+        return False
+    lim = [c for c in cfg if c.startswith("-Qinline-limit=")]
+    if lim:
+        return int(lim[-1].split("=")[1]) > 30
+    return cfg[0] == "-Q9"
 
 
 @st.composite
